@@ -62,7 +62,6 @@ type Entry struct {
 	Inv      *Inv // nil for instance values
 	ScopeTag int
 	BornSeq  int64
-	Obj      any // the instance itself (pointer)
 
 	mu        sync.Mutex
 	Closes    []CloseRec
@@ -143,6 +142,11 @@ type World struct {
 	Ctors         map[int]any
 	InstEnt       map[int]*Entry
 	Anomaly       []string
+
+	// HoldArgs (C14): instances keep what they were constructed with alive, the
+	// ledger keeps no strong reference to built-in arguments.
+	HoldArgs bool
+	OnMade   func(obj any) // called for every instance a constructor makes
 }
 
 func NewWorld(cfg *Config) (*World, error) {
@@ -200,7 +204,7 @@ func (w *World) curScope(g int64) int {
 
 func (w *World) newEntry(r *Reg, out int, impl int, inv *Inv) (*Entry, reflect.Value) {
 	obj := reflect.New(ConcreteTypes[impl].Elem())
-	e := &Entry{W: w, Reg: r.ID, Out: out, Impl: impl, Inv: inv, Obj: obj.Interface()}
+	e := &Entry{W: w, Reg: r.ID, Out: out, Impl: impl, Inv: inv}
 	if inv != nil {
 		e.ScopeTag = inv.ScopeTag
 	}
@@ -210,6 +214,9 @@ func (w *World) newEntry(r *Reg, out int, impl int, inv *Inv) (*Entry, reflect.V
 	w.Entries = append(w.Entries, e)
 	w.mu.Unlock()
 	obj.Interface().(Svc).SetEnt(e)
+	if w.OnMade != nil && inv != nil {
+		w.OnMade(obj.Interface())
+	}
 	return e, obj
 }
 
@@ -345,7 +352,9 @@ func (w *World) decodeArg(d DepSpec, v reflect.Value) ArgRec {
 	if d.Builtin != 0 {
 		if !v.IsNil() {
 			a.Present = true
-			a.Raw = v.Interface()
+			if !w.HoldArgs {
+				a.Raw = v.Interface()
+			}
 		}
 		return a
 	}
@@ -432,6 +441,27 @@ func (w *World) invoke(r *Reg, ft reflect.Type, args []reflect.Value) []reflect.
 		}
 		res[0] = st
 	}
+	if w.HoldArgs {
+		var held []any
+		if r.UseIn {
+			st := args[0]
+			for i := range r.Deps {
+				held = append(held, st.Field(i+1).Interface())
+			}
+		} else {
+			for i := range r.Deps {
+				held = append(held, args[i].Interface())
+			}
+		}
+		for _, e := range inv.Outs {
+			_ = e
+		}
+		for _, o := range heldTargets(res, r) {
+			for _, h := range held {
+				o.hold(h)
+			}
+		}
+	}
 	if w.Gate != nil {
 		w.Gate(GatePoint{Kind: GateCtorExit, Inv: inv, Goid: inv.Goid})
 	}
@@ -442,6 +472,29 @@ func (w *World) invoke(r *Reg, ft reflect.Type, args []reflect.Value) []reflect.
 	}
 	inv.Outcome = 1
 	return res
+}
+
+// heldTargets lists the freshly made instances inside a result list.
+func heldTargets(res []reflect.Value, r *Reg) []Svc {
+	var out []Svc
+	add := func(v reflect.Value) {
+		if (v.Kind() == reflect.Pointer || v.Kind() == reflect.Interface) && !v.IsNil() {
+			if s, ok := v.Interface().(Svc); ok {
+				out = append(out, s)
+			}
+		}
+	}
+	switch r.Form {
+	case FormPlain, FormMulti:
+		for i := range r.Outs {
+			add(res[i])
+		}
+	case FormOut:
+		for i := range r.Outs {
+			add(res[0].Field(i + 1))
+		}
+	}
+	return out
 }
 
 // staticCtor is overridden by kinds.go for non-MakeFunc function kinds.
@@ -553,4 +606,18 @@ func (w *World) Anomalies() []string {
 	w.mu.Lock()
 	defer w.mu.Unlock()
 	return append([]string(nil), w.Anomaly...)
+}
+
+// SetFaultNext plans a fault for the next invocation of the registration's constructor.
+func (w *World) SetFaultNext(reg int, f Fault) {
+	w.mu.Lock()
+	w.Faults[[2]int{reg, w.Count[reg] + 1}] = f
+	w.mu.Unlock()
+}
+
+// ClearFaults drops the fault plan.
+func (w *World) ClearFaults() {
+	w.mu.Lock()
+	w.Faults = map[[2]int]Fault{}
+	w.mu.Unlock()
 }
